@@ -10,8 +10,10 @@ use std::path::Path;
 
 const E: &[u64] = &[0, 1, 2, 3, 4, 5, 6, 7, 8, 9, 10, 11, 12, 13, 15, 16, 17, 31, 32, 33, 64, 65, 100, 128, 255, 256, 257, 1000];
 const B: &[u64] = &[0, 1, 2, 3, 4, 5, 6, 7, 8, 9, 12, 13, 16, 17, 32, 33, 64, 100, 257, 1000];
+// the tracked types without a destructor, and the type whose size is steered (VERIF_EXTRA_ELEM_WORDS)
+const SMALL: &[u64] = &[0, 1, 2, 3, 4, 5, 6, 7, 8, 9, 13, 17, 33, 100];
 const U8: &[u64] = &[0, 1, 2, 3, 4, 5, 6, 7, 8, 9, 12, 15, 16, 17, 32, 33, 64, 100, 255, 256, 257, 1000, 4096];
-const Z: &[u64] = &[0, 1, 2, 3, 4, 65537, 4294967295, 4294967296, 4294967297,
+const Z: &[u64] = &[0, 1, 2, 3, 4, 65537, 2147483649, 3000000000, 4294967291, 4294967294, 4294967295, 4294967296, 4294967297,
     9223372036854775807, 9223372036854775808, 9223372036854775809, 18446744073709551614, 18446744073709551615];
 
 fn list(base: &[u64], extra: &BTreeSet<u64>, max: u64) -> String {
@@ -35,16 +37,25 @@ fn main() {
             }
         }
     }
+    println!("cargo:rerun-if-env-changed=VERIF_EXTRA_ELEM_WORDS");
+    let words: u64 = env::var("VERIF_EXTRA_ELEM_WORDS").ok().and_then(|v| v.trim().parse().ok()).unwrap_or(2);
     let none = BTreeSet::new();
     let src = format!(
-        "fn dispatch_case(elem: &str, n: u64, hdr: &CaseHdr, ops: &[String], out: &mut dyn std::io::Write) -> bool {{\n\
+        "type S = EP<{w}>;\ntype NS = NP<{w}>;\n\
+         fn dispatch_case(elem: &str, n: u64, hdr: &CaseHdr, ops: &[String], out: &mut dyn std::io::Write) -> bool {{\n\
          match elem {{\n\
          \"E\" => dispatch!(n, E, hdr, ops, out; {}),\n\
          \"B\" => dispatch!(n, B, hdr, ops, out; {}),\n\
+         \"NE\" => dispatch!(n, NE, hdr, ops, out; {ne}),\n\
+         \"NB\" => dispatch!(n, NB, hdr, ops, out; {nb}),\n\
+         \"S\" => dispatch!(n, S, hdr, ops, out; {sm}),\n\
+         \"NS\" => dispatch!(n, NS, hdr, ops, out; {sm2}),\n\
          \"u8\" => dispatch!(n, u8, hdr, ops, out; {}),\n\
          \"Z\" => dispatch!(n, Z, hdr, ops, out; {}),\n\
          _ => false,\n}}\n}}\n",
-        list(E, &extra, 1 << 21), list(B, &extra, 1 << 19), list(U8, &extra, 1 << 22), list(Z, &none, 0));
+        list(E, &extra, 1 << 21), list(B, &extra, 1 << 17), list(U8, &extra, 1 << 22), list(Z, &none, 0),
+        w = words, ne = list(SMALL, &extra, 1 << 19), nb = list(SMALL, &none, 0),
+        sm = list(SMALL, &none, 0), sm2 = list(SMALL, &none, 0));
     let out = env::var("OUT_DIR").unwrap();
     fs::write(Path::new(&out).join("caps.rs"), src).unwrap();
 }
